@@ -211,6 +211,16 @@ func EachLength(c byte, max int, f func(s string)) {
 	}
 }
 
+// BoundaryRunes returns the runes at the edges of the UTF-8 encoding lengths and of the ranges that tables
+// and fast paths are usually cut at (ASCII, Latin-1, the BMP, the surrogate gap), as strings.
+func BoundaryRunes() []string {
+	var out []string
+	for _, r := range []rune{0x7f, 0x80, 0x81, 0xff, 0x100, 0x7ff, 0x800, 0xd7ff, 0xe000, 0xfffd, 0xfffe, 0xffff, 0x10000, 0x10ffff} {
+		out = append(out, string(r))
+	}
+	return out
+}
+
 // ByteFills returns all 256 single-byte strings.
 func ByteFills() []string {
 	out := make([]string, 256)
